@@ -108,6 +108,7 @@ type shape struct {
 	mk     func() any       // a symbolic value of the shape
 	newp   func() any       // pointer to a zero value
 	check  func(v, p any)   // assert *p equals v up to nil-vs-empty
+	nums   []int            // declared top-level field numbers
 }
 
 func mkInner(i int) pInner { return pInner{X: i32(i), Y: vfString(vfLen)} }
@@ -118,7 +119,7 @@ func checkInner(a, b pInner, id string) {
 }
 
 var shapes = []shape{
-	{name: "scalars",
+	{name: "scalars", nums: []int{1, 2, 3, 4, 7},
 		mk:   func() any { return pScalars{A: int(i64(0)), B: u32(1), C: vfString(vfLen), D: vfBool(), E: i64(2)} },
 		newp: func() any { return new(pScalars) },
 		check: func(v, p any) {
@@ -129,7 +130,7 @@ var shapes = []shape{
 			vfAssert(a.D == b.D, "scalars.D")
 			vfAssert(a.E == b.E, "scalars.E")
 		}},
-	{name: "ints",
+	{name: "ints", nums: []int{1, 2, 3, 4, 5},
 		mk:   func() any { return pInts{A: i32(0), B: i64(1), C: uint(u64(2)), D: u64(3), E: i32(4)} },
 		newp: func() any { return new(pInts) },
 		check: func(v, p any) {
@@ -140,7 +141,7 @@ var shapes = []shape{
 			vfAssert(a.D == b.D, "ints.D")
 			vfAssert(a.E == b.E, "ints.E")
 		}},
-	{name: "fixed",
+	{name: "fixed", nums: []int{1, 2, 3, 4, 20, 3000},
 		mk: func() any {
 			return pFixed{F: f32frombits(vfU32()), G: f64frombits(vfU64()), H: vfU64(), I: vfU32(), J: u32(0), K: vfBool()}
 		},
@@ -154,7 +155,7 @@ var shapes = []shape{
 			vfAssert(a.J == b.J, "fixed.J")
 			vfAssert(a.K == b.K, "fixed.K")
 		}},
-	{name: "bytes",
+	{name: "bytes", nums: []int{1, 2, 3},
 		mk: func() any {
 			v := pBytes{A: vfBytes(vfLen), C: vfString(vfLen2)}
 			if vfBool() {
@@ -172,7 +173,7 @@ var shapes = []shape{
 			vfAssert(a.B == b.B, "bytes.B")
 			vfAssert(a.C == b.C, "bytes.C")
 		}},
-	{name: "nested",
+	{name: "nested", nums: []int{1, 2, 3, 4, 5},
 		mk: func() any {
 			v := pNested{A: mkInner(0), E: int(i64(1))}
 			if vfBool() {
@@ -207,7 +208,7 @@ var shapes = []shape{
 				vfAssert(*a.D == *b.D, "nested.D")
 			}
 		}},
-	{name: "repeated",
+	{name: "repeated", nums: []int{1, 2, 3, 4},
 		mk: func() any {
 			v := pRepeated{}
 			for i := 0; i < vfLen2; i++ {
@@ -242,7 +243,7 @@ var shapes = []shape{
 				}
 			}
 		}},
-	{name: "repscalar",
+	{name: "repscalar", nums: []int{1, 2, 3, 4},
 		mk: func() any {
 			v := pRepScalar{}
 			for i := 0; i < vfLen2; i++ {
@@ -273,7 +274,7 @@ var shapes = []shape{
 				vfAssert(f32bits(a.D[i]) == f32bits(b.D[i]), "repscalar.D")
 			}
 		}},
-	{name: "maps", hasMap: true,
+	{name: "maps", hasMap: true, nums: []int{1, 2},
 		mk: func() any {
 			v := pMaps{}
 			if vfLen2 > 0 || vfBool() {
@@ -302,7 +303,7 @@ var shapes = []shape{
 				checkInner(x, y, "maps.B-val")
 			}
 		}},
-	{name: "node",
+	{name: "node", nums: []int{1, 2, 3},
 		mk: func() any {
 			v := &pNode{ID: i32(0), Name: vfString(vfLen)}
 			if vfBool() {
@@ -326,4 +327,76 @@ var shapes = []shape{
 				a, b = a.Next, b.Next
 			}
 		}},
+	{name: "mapptr", hasMap: true, nums: []int{1, 2, 3, 4},
+		mk: func() any {
+			v := pMapPtr{}
+			if vfLen2 > 0 {
+				v.A = map[int32][]byte{}
+				v.B = map[string]*int64{}
+				v.C = map[uint32]*pInner{}
+			}
+			for i := 0; i < vfLen2; i++ {
+				v.A[int32(i+1)] = vfBytes(vfLen)
+				x := i64(0)
+				v.B[string(rune('a'+i))] = &x
+				y := mkInner(1)
+				v.C[uint32(i)] = &y
+			}
+			if vfBool() {
+				v.P = &pPair{L: i32(2), R: vfString(vfLen)}
+			}
+			return v
+		},
+		newp: func() any { return new(pMapPtr) },
+		check: func(v, p any) {
+			a, b := v.(pMapPtr), *p.(*pMapPtr)
+			vfAssert(len(a.A) == len(b.A), "mapptr.A-len")
+			vfAssert(len(a.B) == len(b.B), "mapptr.B-len")
+			vfAssert(len(a.C) == len(b.C), "mapptr.C-len")
+			for k, x := range a.A {
+				y, ok := b.A[k]
+				vfAssert(ok, "mapptr.A-key")
+				vfAssert(string(x) == string(y), "mapptr.A-val")
+			}
+			for k, x := range a.B {
+				y, ok := b.B[k]
+				vfAssert(ok && y != nil, "mapptr.B-key")
+				if ok && y != nil {
+					vfAssert(*x == *y, "mapptr.B-val")
+				}
+			}
+			for k, x := range a.C {
+				y, ok := b.C[k]
+				vfAssert(ok && y != nil, "mapptr.C-key")
+				if ok && y != nil {
+					checkInner(*x, *y, "mapptr.C-val")
+				}
+			}
+			vfAssert((a.P == nil) == (b.P == nil), "mapptr.P-nil")
+			if a.P != nil && b.P != nil {
+				vfAssert(a.P.L == b.P.L, "mapptr.P.L")
+				vfAssert(a.P.R == b.P.R, "mapptr.P.R")
+			}
+			// distinct entries never share storage
+			if vfLen2 >= 2 {
+				if x, y := b.A[1], b.A[2]; len(x) > 0 && len(y) > 0 {
+					vfAssert(!vfSameObj(x, y), "mapptr.A-values-do-not-alias")
+				}
+				if x, y := b.B["a"], b.B["b"]; x != nil && y != nil {
+					vfAssert(x != y, "mapptr.B-values-do-not-alias")
+				}
+			}
+		}},
+}
+
+type pPair struct {
+	L int32
+	R string
+}
+
+type pMapPtr struct {
+	A map[int32][]byte
+	B map[string]*int64
+	C map[uint32]*pInner
+	P *pPair
 }
